@@ -483,13 +483,13 @@ func cropStsc(b *mp4.StscBox, lastSampleNr uint32) error {
 	lastEntry := b.Entries[entryIdx]
 	b.Entries = b.Entries[:entryIdx+1]
 	if len(b.SampleDescriptionID) > 0 {
-		b.Entries = b.Entries[:entryIdx+1]
+		b.SampleDescriptionID = b.SampleDescriptionID[:entryIdx+1]
 	}
 	samplesLeft := lastSampleNr - lastEntry.FirstSampleNr + 1
 	nrChunksInLast := samplesLeft / lastEntry.SamplesPerChunk
 	nrLeft := samplesLeft - nrChunksInLast*lastEntry.SamplesPerChunk
 	if nrLeft > 0 {
-		sdid := b.GetSampleDescriptionID(int(lastEntry.FirstChunk))
+		sdid := b.GetSampleDescriptionID(int(entryIdx) + 1) // indexed by entry, not by chunk
 		err := b.AddEntry(lastEntry.FirstChunk+nrChunksInLast, nrLeft, sdid)
 		if err != nil {
 			return fmt.Errorf("stsc AddEntry: %w", err)
